@@ -8,15 +8,16 @@
 # Everything under /tmp/seedpar is removed at the end.
 tier=${1:-quick}
 N=${2:-4}
-T=$(( 16 / N )); [ $T -lt 1 ] && T=1
+T=${SEEDPAR_THREADS:-$(( 16 / N ))}; [ $T -lt 1 ] && T=1
 base=/tmp/seedpar
-out=/verif/seeded/RESULTS.md
+out=${SEEDPAR_OUT:-/verif/seeded/RESULTS.md}   # SEEDPAR_ONLY="C09-m6 C20-m2" restricts the run to those changes
 head=$(git -C /repo rev-parse HEAD)
 rm -rf $base; mkdir -p $base
 : > $base/results.txt
 # job list: "<id> <patch> <check>"
 for d in /verif/seeded/C*-m*; do
   id=$(basename $d); prop=${id%%-*}
+  [ -n "${SEEDPAR_ONLY:-}" ] && ! echo " $SEEDPAR_ONLY " | grep -q " $id " && continue
   p=$d/patch.diff; [ -f $d/patch.ported.diff ] && p=$d/patch.ported.diff
   checks=$prop
   [ "$id" = "C06-m2" ] && checks="C06 C16"
